@@ -55,7 +55,10 @@ def star_before_star_group(nodes):
     """AST predicate: a `*` standing at the START of the name / segment (also: at the start of an alternative of a group that stands
     there) and immediately followed by a `*( ... )` group: wcmatch's duplicate-star consumption at the start reads `**(x)` as `*` +
     literal `(x)`.  Anywhere else (`a**(x)`) the group is parsed correctly and is not part of the listed finding."""
-    if len(nodes) >= 2 and nodes[0][0] == 'star' and nodes[1][0] == 'grp' and nodes[1][1] == '*':
+    k = 0
+    while k < len(nodes) and nodes[k][0] == 'star':          # a run of star nodes at the start is one run of `*` characters
+        k += 1
+    if 0 < k < len(nodes) and nodes[k][0] == 'grp' and nodes[k][1] == '*':
         return True
     if nodes and nodes[0][0] == 'grp':
         return any(star_before_star_group(alt) for alt in nodes[0][2])
